@@ -3,7 +3,9 @@ from vlib.core import Report, run_bounded
 from pyvc.check import run_proofs, attach_bounded_witness
 
 MODS = ["contracts.c06_merge", "contracts.c06_builders"]
-REPLAYS = {"try_to_merge_ops": "contracts.c06_native:replay_merge"}
+REPLAYS = {"try_to_merge_ops": "contracts.c06_native:replay_merge",
+           "ViewRepresentation.extend_parsed_:merge-decision[partition_by=1]": "contracts.c06_native:replay_merge_decision",
+           "ViewRepresentation.extend_parsed_:merge-decision[partition_by=list]": "contracts.c06_native:replay_merge_decision"}
 
 
 def run(tier, seed):
@@ -25,7 +27,7 @@ def run(tier, seed):
     ]
     run_proofs(rep, MODS, keys, REPLAYS)
     from contracts.c06_builders import REGION_KEYS
-    run_proofs(rep, ["contracts.c06_extend"], REGION_KEYS, {})
+    run_proofs(rep, ["contracts.c06_extend"], REGION_KEYS, {k: "contracts.c06_native:replay_merge_decision" for k in REGION_KEYS})
     return rep
 
 
